@@ -51,7 +51,53 @@ checked there against the CPython list oracle, M = also compared with the Coq mo
 Not driven: objects that only define __index__ as positions (the code refuses them with TypeError where a list accepts
 them: an "ill-typed index" by the code's own documentation), == against non-collections (NotImplemented -> False),
 indexing a closed file, ndarray subclasses (masked arrays, matrices), Sequence mix-ins index/count/__contains__
-(they compare arrays with ==; not named by the property), np.copyto narrowing when signatures do not fit the dtype."""
+(they compare arrays with ==; not named by the property), np.copyto narrowing when signatures do not fit the dtype.
+
+State and aliasing (audit of what can outlive one call).  Entry points the property is observed through -- there is no CLI
+command among them, and the anchored code (gambit/util/indexing.py, gambit/sigs/base.py, gambit/sigs/hdf5.py) has no
+module-level, class-level or thread-local mutable state as found (only constants: BOUNDS_DTYPE, STR_DTYPE, format version):
+  E1 coll[index]      AdvancedIndexingMixin.__getitem__ -> _check_index, _getitem_int / _slice / _int_array / _bool_array of
+                      SignatureArray, SignatureList, HDF5Signatures; AnnotatedSignatures.__getitem__ (delegates)
+  E2 ==, !=           AbstractSignatureArray.__eq__, sigarray_eq
+  E3 list mutation    SignatureList.__setitem__ / __delitem__ / insert + MutableSequence pop / append / extend / += / reverse / clear
+  E4 len, iter, reversed
+  E5 construction     SignatureArray(sequence | collection, kmerspec, dtype), from_arrays(values, bounds), SignatureList(iterable |
+                      collection), AnnotatedSignatures(collection, ids, meta)
+  E6 files            dump_signatures / HDF5Signatures.create, load_signatures / load_signatures_hdf5 / HDF5Signatures(group), close
+Objects that outlive a call, and where each dimension is driven: (a) reused across calls that differ in collection / size / dtype /
+backing, in both orders; (b) compared with a snapshot after every call; (c) a call that fails part-way, then a good call on the same
+objects; (d) the same call twice; (e) the call made from a second thread (sequentially; nothing here is advertised as thread-safe,
+after-fork use is not advertised either and is not driven).
+  O1  index object given to E1 (ndarray and the buffer it views, list, tuple, memoryview, bytearray, array.array)
+        before: (b) getitem, xindex, session; (d) xindex; (a) session only against sub-collections of ONE root.
+        now:    xseq -- one index object against 2-3 collections of different size / dtype / backing in any order (systematic:
+                19 index objects x 6 pairs x orders AB, BA, ABA, BAB), snapshot after every step (a b c d e)
+  O2  the collection: values / bounds arrays (views share the parent's values: documented), SignatureList._list, HDF5 datasets +
+      file handle + ids read at open.  before: re-read after the call(s) in xindex / session.  The single-call streams reuse
+      one open file for many cases through the harness's own cache _state['h5'] -- that reuse is accidental: a violation that
+      needs it has a replay (one call on a fresh file) that does not reproduce.
+        now:    xseq re-reads EVERY live pool object after EVERY step; its systematic part is evaluated first  (a b c d)
+  O3  sub-collections (contiguous slices of a SignatureArray are views; SignatureList results share the arrays, not the list)
+        before: session (independent of later mutations of the parent and vice versa).  now: also xseq pool members
+  O4  the caller's list / tuple / generator of signature arrays given to E5, and the arrays (SignatureList keeps the arrays by
+      reference: documented; it must copy the list).  before: never looked at again.
+        now:    xseq builds 2-3 collections from the very same list and KmerSpec object, mutates one, and compares the list
+                (length, identity and bytes of the arrays) and every other collection after every step (a b)
+  O5  values / bounds arrays given to from_arrays (kept by reference: documented).  xindex / xseq re-read the collection.
+  O6  KmerSpec object shared by caller, collection and every sub-collection (frozen).  now: all its fields compared after
+      every xseq step; sub-collections and files keep equal parameters (b)
+  O7  the array given to set / insert / append, the caller's list or iterator of new signatures for extend / += / slice
+      assignment.  before: histories (state after every step, failing steps included).  now: the list is compared afterwards
+      (same objects, same order), iterators that raise part-way (extfail / iaddfail: list semantics = items yielded so far stay)
+      (b c)
+  O8  ids array / SignaturesMeta (+ its extra dict) / wrapped collection of an AnnotatedSignatures given to E6, **kw
+        now:    xseq 'dump' compares them (and the source collection) after the call (b)
+  O9  a path on disk: written, loaded, closed, written again with other content / size, loaded again; two files open at once;
+      a truncated / corrupt / foreign file refused between two good calls.  before: every file had a fresh path.
+        now:    xseq 'dump' to one of two path slots, 'badload' (a c)
+  O10 pairs of collections compared with ==: before and after a mutation of one of them, both orders, twice, collections
+      constructed from pool collections (SignatureList(coll), SignatureArray(coll)) stay independent of them.
+        before: session 'eq' between random objects of one root.  now: xseq 'eq' / 'derive' (a c d e)"""
 import itertools
 import os
 
@@ -68,11 +114,21 @@ RULE = ('getitem: (backing, signatures, index expression) -> signature / sub-col
         '(index the collection or a sub-collection taken earlier, mutate a list-backed one, ==, len/iter/reversed), every '
         'object re-read after every step; non-trivial: >= 3 steps with a mutation or a nested indexing.  eqx: pairs of '
         'collections of any construction / dtype / parameters, b derived from a by one minimal change; ==, !=, both orders, '
-        'sigarray_eq on collections and plain sequences; non-trivial: same length >= 1.')
+        'sigarray_eq on collections and plain sequences; non-trivial: same length >= 1.  xseq (state / aliasing audit, list '
+        'oracle only): a script of 2..8 steps over a pool of shared objects -- 2-3 collections (of different size / dtype / backing, '
+        'some built from the very same list of arrays and KmerSpec object), 1-4 index objects used by reference on any of them, list '
+        'mutations (also with iterators that raise part-way), ==, collections constructed from pool collections, dump + load (also to a '
+        'path used before), a load that fails; every step judged as in getitem / mutate / eq, each indexing and == done twice (some from '
+        'a second thread), and after every step every live pool object re-read and every caller-owned object (index objects and their '
+        'buffers, input lists and their arrays, KmerSpec objects, ids / metadata given to dump) compared with its snapshot; non-trivial: '
+        '>= 2 steps with an index object used on two collections, a mutation, a failed call followed by a good one, a constructed '
+        'collection or a file.')
 TRUSTED = ['CPython list indexing/slicing/mutation is the oracle ("what a plain list would do")',
            'NumPy / h5py array reads (integer lookup, basic slice, np.arange, np.flatnonzero, np.cumsum, np.copyto) '
            'modelled as list functions in Model/C20.v',
-           'collections.abc Sequence.__iter__ / MutableSequence mix-ins (pop, append) modelled from their source']
+           'collections.abc Sequence.__iter__ / MutableSequence mix-ins (pop, append) modelled from their source',
+           'h5py / HDF5 library state (library lock, registry of open files, chunk cache) -- xseq only observes it through '
+           'two files open at once and a path written twice']
 ASSUMPTIONS = ['fewer than 2^63 signatures; slice steps fit Py_ssize_t (theorem hypothesis idx_fits); np.arange lengths exact',
                'signature values fit the collection dtype (np.copyto casting=unsafe is not modelled)',
                'C20_index_unmodified is explored (caller arrays compared before/after), not proved: the Coq model is '
@@ -83,8 +139,13 @@ ASSUMPTIONS = ['fewer than 2^63 signatures; slice steps fit Py_ssize_t (theorem 
                'wrappers, index containers, call sequences): judged by the property predicate and the CPython list oracle alone',
                'index objects the property does not name (bool / IntEnum scalars, range, array.array, bytearray, memoryview, tuple '
                'masks, lists mixing bool and int or 64-bit unsigned and signed NumPy scalars) may be refused with an index/type '
-               'error or select what a list would; IndexError and TypeError are one class in the audit streams']
-CORRESPONDENCES = ['getitem', 'mutate', 'eq', 'xindex', 'session', 'eqx']
+               'error or select what a list would; IndexError and TypeError are one class in the audit streams',
+               'xseq: what the collections DOCUMENT as shared is not judged (a contiguous slice of a SignatureArray is a view of its '
+               'values; a SignatureList keeps the caller\'s arrays by reference; from_arrays keeps values / bounds): the harness never writes '
+               'into a signature array.  A caller-supplied index container that raises part-way must make the call fail (any error class); '
+               'a damaged file may be refused or not (another property): only the objects of the pool are judged afterwards.  Second-thread '
+               'calls are sequential (no concurrency is claimed by the code); use after fork is not driven']
+CORRESPONDENCES = ['getitem', 'mutate', 'eq', 'xindex', 'session', 'eqx', 'xseq']
 SHRINK = False
 
 ERR = {1: 'IndexError', 2: 'TypeError', 3: 'ValueError', 4: 'NumpyError', 5: 'OutOfFuel'}
@@ -362,8 +423,33 @@ def _short(o):
 	return s if len(s) < 160 else s[:150] + '...'
 
 
+def _failing(items, after):
+	"""a caller-supplied iterator that yields `after` items and then raises"""
+	for i, x in enumerate(items):
+		if i == after:
+			raise RuntimeError('caller-supplied iterator fails part-way')
+		yield x
+	if after >= len(items):
+		raise RuntimeError('caller-supplied iterator fails at its end')
+
+
 def _apply(seq, op, arr):
 	"""apply one mutation to a list-like; returns the outcome"""
+	t = op[0]
+	new = None
+	if t in ('ext', 'iadd', 'extfail', 'iaddfail'):
+		new = [arr(s) for s in op[1]]
+	elif t == 'setslice':
+		new = [arr(s) for s in op[4]]
+	given = list(new) if new is not None else None
+	out = _apply1(seq, op, arr, new)
+	# the caller's own list of new signatures is left as it was (same objects, same order)
+	if new is not None and (len(new) != len(given) or any(x is not y for x, y in zip(new, given))):
+		return ['err', 'the caller\'s list of new signatures was modified']
+	return out
+
+
+def _apply1(seq, op, arr, new):
 	t = op[0]
 	try:
 		if t == 'set':
@@ -377,21 +463,29 @@ def _apply(seq, op, arr):
 		elif t == 'app':
 			seq.append(arr(op[1]))
 		elif t == 'ext':
-			seq.extend([arr(s) for s in op[1]])
+			seq.extend(new)
 		elif t == 'iadd':
-			seq += [arr(s) for s in op[1]]
+			seq += new
+		elif t == 'extfail':
+			seq.extend(_failing(new, op[2]))
+		elif t == 'iaddfail':
+			seq += _failing(new, op[2])
 		elif t == 'rev':
 			seq.reverse()
 		elif t == 'clear':
 			seq.clear()
 		elif t == 'setslice':
-			seq[slice(op[1], op[2], op[3])] = [arr(s) for s in op[4]]
+			seq[slice(op[1], op[2], op[3])] = new
 		elif t == 'delslice':
 			del seq[slice(op[1], op[2], op[3])]
 		else:
-			raise RuntimeError(t)
+			raise AssertionError('unknown mutation ' + str(t))
 	except (IndexError, ValueError, TypeError) as e:
 		return ['err', type(e).__name__]
+	except RuntimeError:
+		if t not in ('extfail', 'iaddfail'):
+			raise
+		return ['err', 'RuntimeError']
 	return ['coll', []]
 
 
@@ -533,9 +627,11 @@ def _idx_range(dt):
 	return int(ii.min), int(ii.max)
 
 
-def _xbuild(d):
+def _xbuild(d, shared=None):
 	"""d = dict(how, k, dt, sigs, opts) -> dict(obj, base, ks, dt).  Every `how` yields a collection whose content is
-	exactly d['sigs'] (junk signatures only pad parents that are sliced away again)."""
+	exactly d['sigs'] (junk signatures only pad parents that are sliced away again).  shared = dict(arrs, ks): the
+	caller's own list of signature arrays and KmerSpec object to build from (xseq: several collections are built
+	from the very same objects, which must stay as they are)."""
 	import json
 	import numpy as np
 	import h5py
@@ -544,10 +640,10 @@ def _xbuild(d):
 	from gambit.sigs.hdf5 import HDF5Signatures, load_signatures_hdf5
 	how, k, sigs, o = d['how'], d.get('k', 0), d['sigs'], d.get('opts') or {}
 	dt = np.dtype(d.get('dt', 'uint16'))
-	ks = _xks(k)
+	ks = _xks(k) if shared is None else shared['ks']
 	n = len(sigs)
 	A = lambda ss, t=dt: [np.array(s, dtype=t) for s in ss]
-	arrs = A(sigs)
+	arrs = A(sigs) if shared is None else shared['arrs']
 	ann = how.startswith('ann:')
 	if ann:
 		how = how[4:]
@@ -729,6 +825,8 @@ def _xindex(idx):
 		if c == 'memoryview':
 			basearr = np.array(v, dtype=idx.get('dt', 'int64'))
 			return memoryview(basearr), [basearr], False
+		if c == 'raising':
+			return _Raising(v, idx['at']), [], False
 	if t == 'mask':
 		c, m = idx['c'], [bool(b) for b in idx['v']]
 		if c == 'nd':
@@ -741,12 +839,41 @@ def _xindex(idx):
 	raise ValueError(idx)
 
 
+class _Raising:
+	"""a caller-supplied index container that raises part-way (position `at`) while it is read"""
+
+	def __init__(self, v, at):
+		self.v, self.at, self.reads = list(v), at, 0
+
+	def __len__(self):
+		return len(self.v)
+
+	def __getitem__(self, i):
+		if isinstance(i, slice):
+			raise RuntimeError('caller-supplied container: slicing fails')
+		if not -len(self.v) <= i < len(self.v):
+			raise IndexError(i)
+		self.reads += 1
+		if i % len(self.v) == self.at:
+			raise RuntimeError('caller-supplied container fails part-way')
+		return self.v[i]
+
+	def __iter__(self):
+		for i in range(len(self.v)):
+			yield self[i]
+
+	def __repr__(self):
+		return f'<container of {self.v} raising RuntimeError at position {self.at}>'
+
+
 def _xsnap(py, extras):
 	import array
 	import numpy as np
 	out = []
 	for x in list(extras) + [py]:
-		if isinstance(x, np.ndarray):
+		if isinstance(x, _Raising):
+			out.append(('raising', repr(x.v), x.at))
+		elif isinstance(x, np.ndarray):
 			out.append((str(x.dtype), x.shape, x.tobytes()))
 		elif isinstance(x, (bytearray, memoryview, array.array)):
 			out.append(bytes(x))
@@ -1015,7 +1142,325 @@ def k_eqx(ctx, cases):
 			              f'plain vs plain) gives {got}; all signatures equal: {same_sigs} [{c.get("d")}]', impl=got, spec=same_sigs)
 
 
-KINDS = {'getitem': k_getitem, 'mutate': k_mutate, 'eq': k_eq, 'xindex': k_xindex, 'session': k_session, 'eqx': k_eqx}
+# ======================================================================================================
+# State / aliasing audit stream: xseq.  A case is a short script over a small POOL of shared objects: 2-3
+# collections (some built from the very same Python list of arrays and KmerSpec object), 1-4 index objects
+# used by reference against collections of different size / dtype / backing in any order, list mutations
+# (also with caller-supplied iterators that fail part-way), ==, new collections constructed from pool
+# collections, dump + load (also to a path used before).  Every step is judged by the list oracle; after
+# every step every live pool object is re-read and every caller-owned object compared with its snapshot.
+# ======================================================================================================
+
+SHARED_HOWS = ['array', 'array-infer', 'array-tuple', 'list', 'list', 'list-infer', 'list-tuple', 'list-gen', 'view', 'list-sub']
+
+
+def _in_thread(fn):
+	"""run fn() in a second thread (one at a time: the calls are sequential, only the thread differs)"""
+	import threading
+	box = []
+
+	def run():
+		try:
+			box.append((True, fn()))
+		except BaseException as e:   # noqa
+			box.append((False, e))
+	th = threading.Thread(target=run)
+	th.start()
+	th.join()
+	if not box[0][0]:
+		raise box[0][1]
+	return box[0][1]
+
+
+def _input_snap(inp):
+	ks = inp['ks']
+	return ([id(a) for a in inp['arrs']], [(str(a.dtype), a.tobytes()) for a in inp['arrs']],
+	        None if ks is None else (ks.k, ks.prefix, ks.prefix_str, ks.prefix_len, ks.total_len, ks.nkmers, str(ks.index_dtype)))
+
+
+def _xseq_run(c):
+	"""-> (None | (what, impl, spec), facts)"""
+	import copy
+	import attr
+	import numpy as np
+	from gambit.sigs.base import SignatureArray, SignatureList, AnnotatedSignatures, SignaturesMeta, dump_signatures, \
+		load_signatures
+	from gambit.sigs.hdf5 import load_signatures_hdf5
+	idxs = c['idxs']
+	built = [_xindex(d) for d in idxs]
+	snaps = [_xsnap(b[0], b[1]) for b in built]
+	inputs, in_snaps = {}, {}
+	objs, ors, Bs = [], [], []
+	for i, d in enumerate(c['colls']):
+		j = d.get('share')
+		if j is None:
+			dt = np.dtype(d.get('dt', 'uint16'))
+			inputs[i] = dict(arrs=[np.array(s, dtype=dt) for s in d['sigs']], ks=_xks(d.get('k', 0)))
+			j = i
+			in_snaps[i] = _input_snap(inputs[i])
+		B = _xbuild(d, shared=inputs[j])
+		objs.append(B.pop('obj'))
+		B['k'] = _kid(d.get('k', 0))
+		B['root'] = i
+		Bs.append(B)
+		ors.append([list(s) for s in d['sigs']])
+	_state['nfile'] += 1
+	stem = os.path.join(_state['dir'], f'q{_state["nfile"]}')
+	slots = {}     # path slot -> index of the pool object loaded from it
+	opened = []
+	facts = dict(muts=0, crossed=0, failed_then_good=0)
+	failed_on = set()
+	used_on = {}
+
+	def name(j):
+		if j < len(c['colls']):
+			return f'collection #{j} ({c["colls"][j]["how"]}, {c["colls"][j].get("dt", "uint16")})'
+		return f'object #{j} ({Bs[j].get("origin", "?")})'
+
+	def verify():
+		for j, (o, w) in enumerate(zip(objs, ors)):
+			if o is None:
+				continue
+			try:
+				now = _content(o)
+				okk = now == w and len(o) == len(w)
+			except Exception as e:
+				now, okk = 'exception ' + type(e).__name__ + ': ' + str(e)[:80], False
+			if not okk:
+				return (f'{name(j)} now reads {_short(now)}; a plain list / independent copy holds {_short(w)}', now, w)
+			if o.kmerspec != Bs[j]['ks'] or (o.kmerspec is None) != (Bs[j]['ks'] is None) or _dtc(o.dtype) != _dtc(Bs[j]['dt']):
+				return (f'{name(j)} now has k-mer parameters {o.kmerspec} / dtype {o.dtype}; it had {Bs[j]["ks"]} / {Bs[j]["dt"]}',
+				        [str(o.kmerspec), str(o.dtype)], [str(Bs[j]['ks']), str(Bs[j]['dt'])])
+		for j, b in enumerate(built):
+			if _xsnap(b[0], b[1]) != snaps[j]:
+				return (f'the caller\'s index object #{j} {b[0]!r} (or the buffer it views) was modified', None, None)
+		for j, inp in inputs.items():
+			now = _input_snap(inp)
+			if now != in_snaps[j]:
+				part = 'KmerSpec object' if now[2] != in_snaps[j][2] else 'list of signature arrays'
+				return (f'the caller\'s {part} that collection #{j} (and those sharing it) was constructed from was modified: '
+				        f'{len(now[0])} arrays now, {len(in_snaps[j][0])} given', None, None)
+		return None
+
+	def placeholder(content):
+		objs.append(None)
+		Bs.append(None)
+		ors.append([list(s) for s in content])
+
+	what = None
+	try:
+		bad = verify()
+		if bad:
+			what = (f'after constructing the collections: {bad[0]}', bad[1], bad[2])
+		for si, st in enumerate(c['steps'] if what is None else []):
+			where = f'step {si} {st}'
+			kind = st[0]
+			refs = [st[1], st[2]] if kind == 'eq' else [st[1]]
+			if any(x >= len(objs) or objs[x] is None for x in refs):
+				# refers to an object that does not exist (lenient refusal earlier) or whose file was closed: only the
+				# bookkeeping of the step is done, so that the numbering of later objects stays as generated
+				if any(x >= len(objs) for x in refs):
+					continue
+				t = st[1]
+				if kind == 'mut':
+					_apply(ors[t], _mut_op(st[2])[1], lambda s: list(s))
+				elif kind in ('derive', 'dump'):
+					placeholder(ors[t])
+				elif kind == 'get' and idxs[st[2]].get('c') != 'raising':
+					w = _xoracle(ors[t], idxs[st[2]])
+					if w[0] == 'coll':
+						placeholder(w[1])
+				continue
+			if kind == 'get':
+				t, j = st[1], st[2]
+				py, _, strict = built[j]
+				raising = idxs[j].get('c') == 'raising'
+				call = (lambda: _obs_impl(objs[t], py))
+				obs, r = _in_thread(call) if 'thread' in st[3:] else call()
+				obs2, _ = _obs_impl(objs[t], py)
+				want = ['err', 'any'] if raising else _xoracle(ors[t], idxs[j])
+				good = (obs[0] == 'err') if raising else _xjudge(obs, want, strict)
+				if j in used_on and used_on[j] != t:
+					facts['crossed'] += 1
+				used_on[j] = t
+				if not good:
+					what = (f'{where}: {name(t)} indexed with {py!r} gives {_short(obs)}, a plain list '
+					        + ('(any sequence) fails with the container\'s error' if raising else _short(want)), obs, want)
+					break
+				if obs2 != obs and not (raising and obs2[0] == 'err'):
+					what = (f'{where}: {name(t)} indexed with {py!r} gives {_short(obs)} the first and {_short(obs2)} the second time',
+					        [obs, obs2], want)
+					break
+				if obs[0] == 'err':
+					failed_on.add(t)
+				elif t in failed_on:
+					facts['failed_then_good'] += 1
+				bad = None if obs[0] == 'err' else _xmeta(r, obs, Bs[t])
+				if bad:
+					what = (f'{where}: {name(t)} indexed with {py!r}: {bad}', bad, None)
+					break
+				if want[0] == 'coll':
+					if obs[0] == 'coll':
+						objs.append(r)
+						Bs.append(dict(base='list' if isinstance(r, SignatureList) else 'array', ks=Bs[t]['ks'], dt=Bs[t]['dt'],
+						               ann=False, k=Bs[t]['k'], origin=f'step {si}: #{t}[index #{j}]', root=Bs[t]['root']))
+						ors.append([list(s) for s in want[1]])
+					else:
+						placeholder(want[1])   # lenient refusal of an index object the property does not name
+			elif kind == 'mut':
+				t = st[1]
+				oi_op, oo_op = _mut_op(st[2])
+				oi = _apply(objs[t], oi_op, lambda s: np.array(s, dtype=Bs[t]['dt']))
+				oo = _apply(ors[t], oo_op, lambda s: list(s))
+				facts['muts'] += 1
+				if oi != oo:
+					what = (f'{where}: outcome {oi}, plain list {oo}', oi, oo)
+					break
+			elif kind == 'eq':
+				a, b = st[1], st[2]
+				want = Bs[a]['k'] == Bs[b]['k'] and ors[a] == ors[b]
+				call = lambda: [bool(objs[a] == objs[b]), bool(objs[b] == objs[a]), not bool(objs[a] != objs[b]),
+				                bool(objs[a] == objs[b])]
+				try:
+					got = _in_thread(call) if 'thread' in st[3:] else call()
+				except Exception as e:
+					got = ['exception ' + type(e).__name__]
+				if got != [want] * 4:
+					what = (f'{where}: {name(a)} and {name(b)} hold {"equal" if ors[a] == ors[b] else "different"} signatures and '
+					        f'{"the same" if Bs[a]["k"] == Bs[b]["k"] else "different"} k-mer parameters, but ==, reversed ==, not !=, '
+					        f'== again give {got}', got, want)
+					break
+			elif kind == 'iter':
+				t = st[1]
+				o, w = objs[t], ors[t]
+				try:
+					got = [len(o), _content(iter(o)), _content(reversed(o)), [[int(x) for x in o[i]] for i in range(len(w))]]
+				except Exception as e:
+					got = ['exception ' + type(e).__name__]
+				exp = [len(w), w, w[::-1], w]
+				if got != exp:
+					what = (f'{where}: len / iter / reversed / item-by-item of {name(t)} give {_short(got)}, a plain list {_short(exp)}', got, exp)
+					break
+			elif kind == 'derive':
+				t, how = st[1], st[2]
+				o, n, dt = objs[t], len(ors[t]), Bs[t]['dt']
+				if how == 'list':
+					r = SignatureList(o)
+				elif how == 'list-kw':
+					r = SignatureList(o, o.kmerspec, o.dtype)
+				elif how == 'array':
+					r = SignatureArray(o, dtype=(None if n else dt))
+				else:
+					r = SignatureArray(o, o.kmerspec, dtype=dt)
+				objs.append(r)
+				ors.append([list(s) for s in ors[t]])
+				Bs.append(dict(base='list' if how.startswith('list') else 'array', ks=Bs[t]['ks'], dt=dt, ann=False, k=Bs[t]['k'],
+				               origin=f'step {si}: {type(r).__name__}(#{t})', root=None))
+			elif kind == 'dump':
+				t, slot, o = st[1], st[2], st[3]
+				if Bs[t]['ks'] is None or slots.get(slot) == t:
+					placeholder(ors[t])
+					continue
+				if slot in slots:
+					# the path was used before: the collection read from it is closed (and not used any more)
+					try:
+						objs[slots[slot]].close()
+					except Exception:
+						pass
+					objs[slots[slot]] = None
+				path = f'{stem}-{slot}.gs'
+				src = objs[t]
+				n = len(ors[t])
+				wrapped = None
+				if o.get('ids') or Bs[t].get('ann'):
+					# (an annotated wrapper with default ids is always given explicit ones: np.asarray(range(0)) is a float
+					# array, which HDF5Signatures.create refuses -- not a matter of this property)
+					ida = np.array([f'g{i}' for i in range(n)], dtype=object) if o.get('ids') == 'str' else np.arange(100, 100 + n)
+					meta = SignaturesMeta(id='set', name='n', version='1.0', id_attr='key', description='d', extra={'n': n, 'l': [1, {'x': 2}]})
+					wrapped = AnnotatedSignatures(src, ida, meta)
+					before = (list(ida), str(ida.dtype), copy.deepcopy(attr.asdict(meta)))
+				kw = {} if not o.get('comp') else dict(compression=o['comp'])
+				kw_before = dict(kw)
+				dump_signatures(path, wrapped if wrapped is not None else src, 'hdf5', **kw)
+				if wrapped is not None:
+					after = (list(wrapped.ids), str(np.asarray(wrapped.ids).dtype), attr.asdict(wrapped.meta))
+					if wrapped.signatures is not src or wrapped.ids is not ida or wrapped.meta is not meta or after != before:
+						what = (f'{where}: dump_signatures changed the ids / metadata / wrapped collection of the object it was given',
+						        _short(after), _short(before))
+						break
+				if kw != kw_before:
+					what = (f'{where}: dump_signatures changed the caller\'s keyword dict', kw, kw_before)
+					break
+				opn = o.get('open', 'default')
+				r = load_signatures_hdf5(path) if opn == 'fn' else load_signatures(path, **({} if opn == 'default' else dict(mode='r')))
+				opened.append(r)
+				slots[slot] = len(objs)
+				objs.append(r)
+				ors.append([list(s) for s in ors[t]])
+				Bs.append(dict(base='array', ks=Bs[t]['ks'], dt=Bs[t]['dt'], ann=False, k=Bs[t]['k'],
+				               origin=f'step {si}: file written from #{t} to path {slot}', root=None))
+			elif kind == 'badload':
+				# a call that fails part-way: a truncated / corrupt / foreign file is refused (any exception), nothing
+				# else changes
+				t, how = st[1], st[2]
+				path = f'{stem}-bad.gs'
+				slots.setdefault('bad', None)
+				if how == 'truncated' and Bs[t]['ks'] is not None and not Bs[t].get('ann'):
+					dump_signatures(path, objs[t], 'hdf5')
+					raw = open(path, 'rb').read()
+					raw = raw[:max(9, len(raw) * st[3] // 8)]
+				elif how == 'magic':
+					raw = b'\x89HDF\r\n\x1a\n' + bytes(range(200))
+				else:
+					raw = b'not a signatures file\n' * 20
+				with open(path, 'wb') as f:
+					f.write(raw)
+				r = None
+				try:
+					r = load_signatures(path)
+					_content(r)
+				except Exception:
+					pass
+				finally:
+					if r is not None:
+						try:
+							r.close()
+						except Exception:
+							pass
+				# (whether a damaged file must be refused is the question of another property; here the call is one that
+				# normally fails part-way, and what is judged is that nothing else changes: verify() below)
+			else:
+				raise AssertionError(kind)
+			bad = verify()
+			if bad:
+				what = (f'after {where}: {bad[0]}', bad[1], bad[2])
+				break
+	finally:
+		for r in opened:
+			try:
+				r.close()
+			except Exception:
+				pass
+		for slot in slots:
+			try:
+				os.remove(f'{stem}-{slot}.gs')
+			except OSError:
+				pass
+	return what, facts
+
+
+def k_xseq(ctx, cases):
+	for c in cases:
+		what, facts = _xseq_run(c)
+		ctx.case(c, nontrivial=len(c['steps']) >= 2 and (facts['crossed'] > 0 or facts['muts'] > 0 or facts['failed_then_good'] > 0
+		                                                  or any(s[0] in ('derive', 'dump') for s in c['steps'])))
+		if what is not None:
+			ctx.violation('xseq', c, 'pool of ' + ', '.join(f'{d["how"]}[{len(d["sigs"])}]' for d in c['colls']) + ': ' + what[0],
+			              impl=what[1], spec=what[2])
+
+
+KINDS = {'getitem': k_getitem, 'mutate': k_mutate, 'eq': k_eq, 'xindex': k_xindex, 'session': k_session, 'eqx': k_eqx,
+         'xseq': k_xseq}
 BACKINGS = ['array', 'list', 'hdf5', 'view']
 
 
@@ -1206,6 +1651,232 @@ def _xsession(rng):
 	return dict(coll=coll, idxs=idxs, steps=steps)
 
 
+def _xseq_case(rng, maxsteps=6):
+	"""one random script over a pool of shared objects (see k_xseq)"""
+	a = _xcoll(rng, n=rng.choice([1, 2, 3, 4, 5, 7]), hows=rng.choice([SHARED_HOWS, SHARED_HOWS, ARRAY_HOWS + LIST_HOWS + ['hdf5'] * 4]),
+	           long_p=0.0)
+	colls = [a]
+	top = XDT_MAX[a['dt']]
+	for i in range(1, rng.choice([2, 2, 3])):
+		r = rng.random()
+		if r < 0.4 and not a['how'].endswith('hdf5'):
+			# built from the very same list of arrays and the very same KmerSpec object as collection 0
+			how = rng.choice(SHARED_HOWS)
+			if rng.random() < 0.1:
+				how = 'ann:' + how
+			b = dict(how=how, k=a['k'], dt=a['dt'], sigs=a['sigs'], share=0)
+			if how.startswith('ann:'):
+				b['opts'] = dict(aids=rng.choice([None, 'a']))
+		elif r < 0.75:
+			# same dtype (and mostly the same parameters), content derived from collection 0: other size
+			b = _xcoll(rng, n=0, hows=ARRAY_HOWS + LIST_HOWS + ['hdf5'] * 3, long_p=0.0)
+			b['dt'] = a['dt']
+			b['k'] = a['k'] if (rng.random() < 0.8 and not (a['k'] is None and b['how'].endswith('hdf5'))) else b['k']
+			sg = [list(x) for x in a['sigs']]
+			m = rng.random()
+			if m < 0.3:
+				sg = sg[:rng.randrange(len(sg) + 1)]
+			elif m < 0.5:
+				sg = sg + [sorted(rng.sample(range(min(top, 60000)), rng.randint(0, 3))) for _ in range(rng.randint(1, 3))]
+			elif m < 0.65:
+				sg = sg[::-1]
+			elif m < 0.8:
+				sg = sg[1:] + [[]]
+			b['sigs'] = sg
+		else:
+			b = _xcoll(rng, n=rng.choice([0, 1, 2, 3, 5, 9]), hows=ARRAY_HOWS + LIST_HOWS + ['hdf5'] * 3, long_p=0.0)
+		colls.append(b)
+	ors = [[list(x) for x in d['sigs']] for d in colls]
+	ks = [_kid(d['k']) for d in colls]
+	dts = [d['dt'] for d in colls]
+	mutable = [d['how'].startswith('list') for d in colls]
+	hasks = [d['k'] is not None for d in colls]
+	ann = [d['how'].startswith('ann:') for d in colls]
+	dead = set()
+	slots = {}
+	idxs, steps, eq_pairs = [], [], []
+	nroot = len(colls)
+	for _ in range(rng.randint(2, maxsteps)):
+		live = [j for j in range(len(ors)) if j not in dead]
+		t = rng.choice([rng.randrange(nroot), rng.choice(live), rng.choice(live)])
+		if t in dead:
+			continue
+		n = len(ors[t])
+		r = rng.random()
+		flags = ['thread'] if rng.random() < 0.08 else []
+		if r < 0.5:
+			if idxs and rng.random() < 0.55:
+				j = rng.randrange(len(idxs))
+			else:
+				# an index made for a collection of the pool -- often another one than it is first used on
+				m = len(ors[rng.choice(live)]) if rng.random() < 0.5 else n
+				q = rng.random()
+				if q < 0.08:
+					v = [rng.randint(-m, m - 1) if m else 0 for _ in range(rng.randint(1, 4))]
+					d = dict(t='ints', c='raising', v=v, at=rng.randrange(len(v)))
+				elif q < 0.3:
+					# in range for the larger collections of the pool only: fails part-way on the smaller ones
+					big = max(len(o) for o in ors)
+					v = [rng.randint(-big, big - 1) if big else 0 for _ in range(rng.randint(2, 5))]
+					d = dict(t='ints', c='nd', v=v, dt=rng.choice(['intp', 'int64', 'int32', 'int16', 'int8']), lay=rng.choice(['contig', 'contig', 'strided', 'ro']))
+				else:
+					d = _xidx(rng, m)
+				idxs.append(d)
+				j = len(idxs) - 1
+			steps.append(['get', t, j] + flags)
+			if idxs[j].get('c') == 'raising':
+				continue
+			w = _xoracle(ors[t], idxs[j])
+			if w[0] == 'coll':
+				if len(ors) >= 9:
+					steps.pop()
+					continue
+				ors.append([list(x) for x in w[1]])
+				ks.append(ks[t]); dts.append(dts[t]); hasks.append(hasks[t]); ann.append(False)
+				mutable.append(mutable[t] and not ann[t])
+		elif r < 0.7:
+			if not mutable[t] or ann[t]:
+				cand = [j for j in live if mutable[j] and not ann[j]]
+				if not cand:
+					continue
+				t = rng.choice(cand)
+				n = len(ors[t])
+			i = rng.choice([rng.randint(-n - 1, n), 0, -1, n])
+			sig = sorted(rng.sample(range(min(XDT_MAX[dts[t]], 60000)), rng.randint(0, 3)))
+			ty = rng.choice([None, None, None] + NP_SCALARS)
+			if ty and not _fit([i], ty):
+				ty = 'int64'
+			kind = rng.choice(['set', 'del', 'ins', 'pop', 'app', 'ext', 'rev', 'setslice', 'delslice', 'iadd', 'extfail', 'iaddfail', 'clear'])
+			if kind in ('set', 'ins'):
+				op = [kind, i, sig] + ([ty] if ty else [])
+			elif kind in ('del', 'pop'):
+				op = [kind, i] + ([ty] if ty else [])
+			elif kind == 'app':
+				op = ['app', sig]
+			elif kind in ('ext', 'iadd'):
+				op = [kind, [sig, []]]
+			elif kind in ('extfail', 'iaddfail'):
+				op = [kind, [sig, [], sig], rng.randrange(4)]
+			elif kind in ('rev', 'clear'):
+				op = [kind]
+			elif kind == 'delslice':
+				op = ['delslice', rng.choice([None, rng.randint(-n, n)]), rng.choice([None, rng.randint(-n, n)]), rng.choice([None, 1, 2, -1])]
+			else:
+				st = rng.choice([None, None, 2, -1])
+				x, y = rng.choice([None, rng.randint(-n, n)]), rng.choice([None, rng.randint(-n, n)])
+				cnt = len(range(*slice(x, y, st).indices(n)))
+				op = ['setslice', x, y, st, [sig] * (rng.randint(0, 2) if st is None or rng.random() < 0.3 else cnt)]
+			_apply(ors[t], _mut_op(op)[1], lambda q: list(q))
+			steps.append(['mut', t, op])
+			if rng.random() < 0.35:
+				# == right after the mutation, preferably of a pair that was compared before it
+				again = [p for p in eq_pairs if t in p and p[0] in live and p[1] in live]
+				x, y = rng.choice(again) if again else (t, rng.choice(live))
+				steps.append(['eq', x, y])
+				eq_pairs.append((x, y))
+		elif r < 0.82:
+			# prefer a partner that could be equal: same parameters and dtype family
+			cand = [j for j in live if ks[j] == ks[t]] or live
+			again = [p for p in eq_pairs if p[0] in live and p[1] in live]
+			if again and rng.random() < 0.5:
+				# a pair compared before (a mutation of one of them may lie in between), in either order
+				x, y = rng.choice(again)
+				steps.append(['eq'] + rng.choice([[x, y], [y, x]]) + flags)
+			else:
+				steps.append(['eq', t, rng.choice(cand if rng.random() < 0.7 else live)] + flags)
+				eq_pairs.append((steps[-1][1], steps[-1][2]))
+		elif r < 0.90:
+			if ann[t] or len(ors) >= 9:
+				continue
+			how = rng.choice(['list', 'list', 'list-kw', 'array', 'array-kw'])
+			steps.append(['derive', t, how])
+			ors.append([list(x) for x in ors[t]])
+			ks.append(ks[t]); dts.append(dts[t]); hasks.append(hasks[t]); ann.append(False)
+			mutable.append(how.startswith('list'))
+		elif r < 0.95:
+			if not hasks[t] or len(ors) >= 9:
+				continue
+			slot = rng.choice(sorted(slots)) if (slots and rng.random() < 0.6) else rng.randrange(2)
+			if slots.get(slot) == t:
+				slot = 1 - slot   # a file is not written over the file it is read from
+			if slot in slots:
+				dead.add(slots[slot])
+			o = dict(ids=rng.choice([None, 'str', 'int']), comp=rng.choice([None, None, 'gzip', 'lzf']), open=rng.choice(['default', 'mode-r', 'fn']))
+			steps.append(['dump', t, slot, o])
+			slots[slot] = len(ors)
+			ors.append([list(x) for x in ors[t]])
+			ks.append(ks[t]); dts.append(dts[t]); hasks.append(True); ann.append(False)
+			mutable.append(False)
+		elif r < 0.975:
+			steps.append(['badload', t, 'truncated', rng.randint(0, 7)] if (hasks[t] and rng.random() < 0.6) else
+			             ['badload', t, rng.choice(['magic', 'text'])])
+		else:
+			steps.append(['iter', t])
+	return dict(colls=colls, idxs=idxs, steps=steps)
+
+
+def _xseq_systematic():
+	"""small systematic part of xseq: one index object against two collections of different size / backing / dtype in both
+	orders (and back again); a call that fails part-way followed by a good call with the same objects; two collections
+	built from one list, one of them mutated; a file rewritten at the same path"""
+	A5 = [[1, 5], [], [7], [2, 3, 9], [4]]
+	B3 = [[8], [6, 7], []]
+	pairs = [(dict(how='array', k=0, dt='uint16', sigs=A5), dict(how='array', k=0, dt='uint16', sigs=B3)),
+	         (dict(how='list', k=0, dt='uint32', sigs=A5), dict(how='list', k=1, dt='uint16', sigs=B3)),
+	         (dict(how='array', k=0, dt='uint64', sigs=A5), dict(how='list', k=0, dt='uint16', sigs=B3)),
+	         (dict(how='hdf5', k=0, dt='uint16', sigs=A5), dict(how='hdf5', k=0, dt='uint16', sigs=B3)),
+	         (dict(how='hdf5', k=2, dt='uint32', sigs=A5, opts=dict(comp='gzip')), dict(how='view', k=2, dt='uint32', sigs=B3)),
+	         (dict(how='view', k=0, dt='uint16', sigs=A5), dict(how='sub-rev', k=0, dt='uint16', sigs=A5[:3]))]
+	nd = lambda v, dt='intp', lay='contig': dict(t='ints', c='nd', v=v, dt=dt, lay=lay)
+	idxs = [nd([-1, 0]), nd([2, -3, 1]), nd([4, 0]), nd([0, 4, 1]), nd([-5, 1]), nd([1, -1], 'int8'), nd([3, 1], 'uint8', 'strided'),
+	        dict(t='ints', c='list-np', v=[-1, 1], tys=['int64']), dict(t='ints', c='list-np', v=[0, -4, 1], tys=['int16']),
+	        dict(t='mask', c='nd', v=[1, 0, 1], lay='contig'), dict(t='mask', c='nd', v=[0, 1, 1, 0, 1], lay='contig'),
+	        dict(t='mask', c='list-np', v=[1, 1, 0]), dict(t='int', v=-1, **{'as': 'py'}), dict(t='int', v=3, **{'as': 'int64'}),
+	        dict(t='int', v=-4, **{'as': 'int8'}), dict(t='slice', a=-2, b=None, s=None, np=['py', None, None]),
+	        dict(t='slice', a=None, b=None, s=-2, np=[None, None, 'int64']), dict(t='slice', a=3, b=0, s=-1, np=['int8', 'py', 'py']),
+	        dict(t='ints', c='raising', v=[0, 1, 2], at=1)]
+	good = nd([1, 0, -1])
+	for a, b in pairs:
+		for d in idxs:
+			for order in ([0, 1], [1, 0], [0, 1, 0], [1, 0, 1]):
+				yield 'both-orders', dict(colls=[a, b], idxs=[d], steps=[['get', t, 0] for t in order])
+			# the failing (or any) call first, then a good call with another index object, then the first again
+			yield 'failed-then-good', dict(colls=[a, b], idxs=[d, good], steps=[['get', 1, 0], ['get', 1, 1], ['get', 0, 0], ['get', 0, 1],
+			                                                                     ['get', 1, 0], ['get', 1, 1]])
+	# one list of arrays, two collections; mutations of one of them
+	muts = [['app', [3]], ['ins', 0, [4]], ['del', -1], ['pop', 0], ['set', 1, [5, 6]], ['ext', [[1], []]], ['iadd', [[2]]], ['rev'],
+	        ['clear'], ['setslice', None, None, None, []], ['delslice', 1, None, None], ['extfail', [[1], [2], [3]], 2], ['iaddfail', [[1], [2]], 1],
+	        ['set', 9, [1]], ['del', -9]]
+	for how2 in ('list', 'list-tuple', 'list-infer', 'array', 'view', 'list-sub'):
+		for how1 in ('list', 'list-infer'):
+			for op in muts:
+				c1 = dict(how=how1, k=0, dt='uint16', sigs=A5)
+				c2 = dict(how=how2, k=0, dt='uint16', sigs=A5, share=0)
+				yield 'shared-input', dict(colls=[c1, c2], idxs=[good], steps=[['eq', 0, 1], ['mut', 0, op], ['eq', 0, 1], ['get', 1, 0], ['eq', 1, 0]])
+	# collections constructed from pool collections are independent of them; == before and after a mutation
+	for how in ('list', 'list-sub', 'list-built', 'list-from-array'):
+		for dv in ('list', 'list-kw', 'array', 'array-kw'):
+			for op in muts[:9]:
+				c1 = dict(how=how, k=1, dt='uint32', sigs=A5)
+				yield 'derived', dict(colls=[c1, dict(how='array', k=1, dt='uint32', sigs=A5)], idxs=[],
+				                      steps=[['derive', 0, dv], ['eq', 0, 2], ['eq', 0, 1], ['mut', 0, op], ['eq', 0, 2], ['eq', 2, 1], ['eq', 0, 1]])
+	# a load that fails (truncated / corrupt / foreign file) between two good calls on the same objects
+	for a, b in pairs:
+		for bad in (['badload', 0, 'truncated', 0], ['badload', 0, 'truncated', 3], ['badload', 0, 'truncated', 6], ['badload', 1, 'magic'],
+		            ['badload', 1, 'text']):
+			yield 'failed-load-then-good', dict(colls=[a, b], idxs=[good], steps=[['get', 0, 0], bad, ['get', 0, 0], ['get', 1, 0], ['eq', 2, 3],
+			                                                                       ['dump', 0, 0, dict()], ['eq', 0, 5]])
+	# a file rewritten at the same path with other content / other size
+	for a, b in pairs[:4]:
+		for o1 in (dict(), dict(comp='gzip'), dict(ids='str', open='fn')):
+			for slot2 in (0, 1):
+				# objects: #2 = file written from #0, #3 = #2[index], #4 = file written from #1 (to the same path if slot2 == 0:
+				# then #2 is closed first), #5 = #4[index]
+				yield 'rewritten-path', dict(colls=[a, b], idxs=[good], steps=[['dump', 0, 0, o1], ['get', 2, 0], ['dump', 1, slot2, dict(ids='int')],
+				                                                                ['get', 4, 0], ['eq', 4, 1], ['eq', 4, 0], ['iter', 4], ['get', 2, 0],
+				                                                                ['eq', 3, 5]])
+
+
 def _xeq_pair(rng):
 	"""two collection descriptions for the extended equality stream + a word saying how b was derived from a"""
 	a = _xcoll(rng, n=rng.choice([0, 1, 2, 3, 5, 8] + [300] * (rng.random() < 0.04)), long_p=0.05)
@@ -1286,6 +1957,15 @@ def generate(ctx):
 
 	def gi(kind, sigs, idx, k=0, bits=16):
 		return 'getitem', dict(kind=kind, k=k, bits=bits, sigs=sigs, idx=idx)
+
+	# ---- state / aliasing audit, systematic part: evaluated at once and before every other stream.  The single-call
+	# streams below reuse file-backed collections between cases, so they can trip over state that an earlier case left
+	# behind -- with a replay (one call on fresh objects) that does not reproduce.  A script carries its whole history.
+	sysc = []
+	for name, c in _xseq_systematic():
+		ctx.count('stream:xseq-systematic-' + name)
+		sysc.append(c)
+	k_xseq(ctx, sysc)
 
 	# ---- the confirmed defects (fixed by repo_fixes/C20.diff): narrow signed index dtypes, uint64 ------------
 	big = [[i] for i in range(200)]
@@ -1527,3 +2207,32 @@ def generate(ctx):
 		count_coll(c['a'])
 		ctx.count('stream:eqx')
 		yield 'eqx', c
+
+	# ---- state / aliasing audit: scripts over a pool of shared objects (see "state and aliasing" in the docstring) ----
+	def count_seq(c):
+		st = c['steps']
+		used = {}
+		for x in st:
+			if x[0] == 'get':
+				used.setdefault(x[2], set()).add(x[1])
+		if any(len(v) > 1 for v in used.values()):
+			ctx.count('stream:xseq-index-object-on-several-collections')
+		if any(d.get('share') is not None for d in c['colls']):
+			ctx.count('stream:xseq-collections-built-from-one-list')
+		if any(d.get('c') == 'raising' for d in c['idxs']) or any(x[0] == 'mut' and x[2][0] in ('extfail', 'iaddfail') for x in st):
+			ctx.count('stream:xseq-caller-container-raises-part-way')
+		if any(x[0] == 'mut' for x in st) and any(x[0] == 'eq' for x in st):
+			ctx.count('stream:xseq-eq-around-mutations')
+		if any(x[0] == 'derive' for x in st):
+			ctx.count('stream:xseq-collection-constructed-from-collection')
+		dumps = [x[2] for x in st if x[0] == 'dump']
+		if dumps:
+			ctx.count('stream:xseq-dump-load' + ('-path-reused' if len(set(dumps)) < len(dumps) else ''))
+		if any('thread' in x[3:] for x in st if x[0] in ('get', 'eq')):
+			ctx.count('stream:xseq-second-thread')
+
+	for _ in range(ctx.pick(2200, 25000)):
+		c = _xseq_case(rng, ctx.pick(6, 8))
+		ctx.count('stream:xseq-random')
+		count_seq(c)
+		yield 'xseq', c
